@@ -1,0 +1,112 @@
+//go:build verif
+
+// Contracts for the verification machinery in /verif (comment-only; compiled only with -tags verif).
+package types
+
+// ---------------------------------------------------------------- store keys (byte level)
+
+//@ func GetBeaconIDBytes(beaconID) (bz)
+//@   props C18
+//@   nopanic
+//@   ensures len(bz) == 8 && bz != nil && be64at(arr(bz), 0, beaconID)
+
+//@ func GetBeaconIDFromBytes(bz) (id)
+//@   props C18
+//@   requires len(bz) >= 8
+//@   nopanic
+//@   ensures be64at(arr(bz), 0, id)
+
+//@ func GetTimestampIDBytes(timestampID) (bz)
+//@   props C18
+//@   nopanic
+//@   ensures len(bz) == 8 && bz != nil && be64at(arr(bz), 0, timestampID)
+
+//@ func GetTimestampIDFromBytes(bz) (id)
+//@   props C18
+//@   requires len(bz) >= 8
+//@   nopanic
+//@   ensures be64at(arr(bz), 0, id)
+
+//@ func BeaconKey(id) (key)
+//@   props C18
+//@   nopanic
+//@   ensures len(key) == 9 && key != nil && key[0] == 1 && be64at(arr(key), 1, id)
+
+//@ func BeaconAllTimestampsKey(id) (key)
+//@   props C18
+//@   nopanic
+//@   ensures len(key) == 9 && key != nil && key[0] == 2 && be64at(arr(key), 1, id)
+
+//@ func BeaconStorageLimitKey(id) (key)
+//@   props C18
+//@   nopanic
+//@   ensures len(key) == 9 && key != nil && key[0] == 3 && be64at(arr(key), 1, id)
+
+//@ func BeaconTimestampKey(beaconID, timestampID) (key)
+//@   props C18
+//@   nopanic
+//@   ensures len(key) == 17 && key != nil && key[0] == 2 && be64at(arr(key), 1, beaconID) && be64at(arr(key), 9, timestampID)
+
+//@ lemma beacon_id_roundtrip [C18]
+//@   vars a uint64
+//@   call bz := GetBeaconIDBytes(a)
+//@   call b := GetBeaconIDFromBytes(bz)
+//@   use be64_recon(a)
+//@   use be64_recon(b)
+//@   show a == b
+
+//@ lemma beacon_key_injective [C18]
+//@   vars a uint64, b uint64
+//@   call k1 := BeaconKey(a)
+//@   call k2 := BeaconKey(b)
+//@   assume bytesEq(k1, k2)
+//@   use be64_recon(a)
+//@   use be64_recon(b)
+//@   show a == b
+
+//@ lemma beacon_limit_key_injective [C18]
+//@   vars a uint64, b uint64
+//@   call k1 := BeaconStorageLimitKey(a)
+//@   call k2 := BeaconStorageLimitKey(b)
+//@   assume bytesEq(k1, k2)
+//@   use be64_recon(a)
+//@   use be64_recon(b)
+//@   show a == b
+
+//@ lemma beacon_timestamp_key_injective [C18]
+//@   vars a uint64, h uint64, b uint64, g uint64
+//@   call k1 := BeaconTimestampKey(a, h)
+//@   call k2 := BeaconTimestampKey(b, g)
+//@   assume bytesEq(k1, k2)
+//@   use be64_recon(a)
+//@   use be64_recon(b)
+//@   use be64_recon(h)
+//@   use be64_recon(g)
+//@   show a == b && h == g
+
+// ascending iteration under the per-beacon prefix is ascending timestamp id
+//@ lemma beacon_timestamp_key_order [C18]
+//@   vars a uint64, h uint64, g uint64
+//@   call k1 := BeaconTimestampKey(a, h)
+//@   call k2 := BeaconTimestampKey(a, g)
+//@   assume h < g
+//@   use be64_recon(h)
+//@   use be64_recon(g)
+//@   show same8(arr(k1), 1, arr(k2), 1) && k1[0] == k2[0] && lexLess8(arr(k1), 9, arr(k2), 9)
+
+//@ lemma beacon_timestamp_prefix [C18]
+//@   vars a uint64, b uint64, h uint64
+//@   call p := BeaconAllTimestampsKey(a)
+//@   call k := BeaconTimestampKey(b, h)
+//@   use be64_recon(a)
+//@   use be64_recon(b)
+//@   show (p[0] == k[0] && same8(arr(p), 1, arr(k), 1)) == (a == b)
+
+// sections: 0x01 registrations, 0x02 timestamps, 0x03 limits, 0x04 params, 0x20 highest id
+//@ lemma beacon_sections_disjoint [C18]
+//@   vars a uint64, b uint64, c uint64, h uint64
+//@   call k1 := BeaconKey(a)
+//@   call k2 := BeaconTimestampKey(b, h)
+//@   call k3 := BeaconStorageLimitKey(c)
+//@   show k1[0] != k2[0] && k1[0] != k3[0] && k2[0] != k3[0]
+//@   show k1[0] != 4 && k2[0] != 4 && k3[0] != 4 && k1[0] != 32 && k2[0] != 32 && k3[0] != 32
